@@ -15,6 +15,13 @@
 //!   kind 5  the rogue peer of kind 1 over loopback TCP (multistream-select, Noise, and the yamux
 //!           negotiation in transport mode) against a victim's negotiate_connection that dials
 //!           {none, the rogue's identity, another identity, the key in the payload}.
+//!   kind 6  two complete Litep2p nodes through the public API (TCP, WebSocket; QUIC in harness_c01x),
+//!           right / wrong peer id dialed;
+//!   kind 9  the real TransportManager over a scripted transport: its own comparison of the reported
+//!           peer with the dialed one (behind every transport);
+//!   kinds 7, 8 (harness_c01x only, tools/c01_extra_streams.sh, run by ./check in both tiers): the TLS
+//!           certificate verifier of the QUIC transport on crafted extension lists, and the WebRTC
+//!           Noise path (with_prologue / get_remote_peer_id) against a snow responder.
 //! A case line is `kind nparams params.. observed..`; only the parameters are read back on
 //! replay, everything observed is regenerated.
 use crate::util::*;
@@ -65,6 +72,9 @@ fn class(e: &NegotiationError) -> u64 {
         NegotiationError::PeerIdMismatch(_, _) => 8,
         NegotiationError::Timeout => 9,
         NegotiationError::MultistreamSelectError(_) => 11,
+        // QUIC: the verifier's refusal travels as the reason of a TLS transport error
+        #[cfg(feature = "extra")]
+        NegotiationError::Quic(e) if format!("{e:?}").contains("Wrong peer ID in p2p extension") => 8,
         _ => 10,
     }
 }
@@ -100,12 +110,15 @@ fn rand_bytes(rng: &mut Rng, n: usize) -> Vec<u8> {
     (0..n).map(|_| rng.below(256) as u8).collect()
 }
 
+/// The oracle tables are computed by an INDEPENDENT implementation (libp2p-identity 0.2.14, which
+/// calls ed25519-dalek itself), not through litep2p's `crypto::ed25519`: a change to
+/// `PublicKey::try_from_bytes` / `PublicKey::verify` in litep2p must not move the oracle with it.
 fn on_curve(k: &[u8]) -> bool {
-    ed25519::PublicKey::try_from_bytes(k).is_ok()
+    libp2p_identity::ed25519::PublicKey::try_from_bytes(k).is_ok()
 }
 
 fn ed_verify(pk: &[u8], msg: &[u8], sig: &[u8]) -> bool {
-    match ed25519::PublicKey::try_from_bytes(pk) {
+    match libp2p_identity::ed25519::PublicKey::try_from_bytes(pk) {
         Ok(p) => p.verify(msg, sig),
         Err(_) => false,
     }
@@ -1381,7 +1394,8 @@ fn run_kind6(rt: &tokio::runtime::Runtime, p: &[u64]) -> Option<(Vec<u64>, Vec<u
         Litep2p, Litep2pEvent,
     };
     use multiaddr::Protocol;
-    if p.len() != 3 || p[1] > 1 || !(1..=2).contains(&p[2]) {
+    let max_transport = if cfg!(feature = "extra") { 2 } else { 1 };
+    if p.len() != 3 || p[1] > max_transport || !(1..=2).contains(&p[2]) {
         return None;
     }
     let mut rng = Rng::new(p[0] ^ 0xC01_0006);
@@ -1393,6 +1407,16 @@ fn run_kind6(rt: &tokio::runtime::Runtime, p: &[u64]) -> Option<(Vec<u64>, Vec<u
     let transport = p[1];
     let node = |k: &ed25519::Keypair| {
         let b = ConfigBuilder::new().with_keypair(k.clone());
+        #[cfg(feature = "extra")]
+        if transport == 2 {
+            return Litep2p::new(
+                b.with_quic(litep2p::transport::quic::config::Config {
+                    listen_addresses: vec!["/ip4/127.0.0.1/udp/0/quic-v1".parse().unwrap()],
+                    ..Default::default()
+                })
+                .build(),
+            );
+        }
         let b = if transport == 1 {
             b.with_websocket(WsConfig {
                 listen_addresses: vec!["/ip4/127.0.0.1/tcp/0/ws".parse().unwrap()],
@@ -1436,11 +1460,11 @@ fn run_kind6(rt: &tokio::runtime::Runtime, p: &[u64]) -> Option<(Vec<u64>, Vec<u
             tokio::select! {
                 ev = d.next_event(), if rd.is_none() => match ev {
                     Some(Litep2pEvent::ConnectionEstablished { peer, .. }) => rd = Some(Ok(peer)),
-                    Some(Litep2pEvent::DialFailure { error, .. }) => rd = Some(Err(match error {
+                    Some(Litep2pEvent::DialFailure { error, .. }) => rd = Some(Err({ match error {
                         DialError::NegotiationError(e) => class(&e),
                         DialError::Timeout => 9,
                         _ => 10,
-                    })),
+                    }})),
                     Some(Litep2pEvent::ListDialFailures { errors }) => rd = Some(Err(match errors.first() {
                         Some((_, DialError::NegotiationError(e))) => class(e),
                         Some((_, DialError::Timeout)) => 9,
@@ -1472,6 +1496,94 @@ fn run_kind6(rt: &tokio::runtime::Runtime, p: &[u64]) -> Option<(Vec<u64>, Vec<u
     Some((case, trace))
 }
 
+// ------------------------------------------------------------------ kind 9: the manager's comparison
+// `9 3 seed transport mode`: the REAL TransportManager over a scripted transport installed as TCP (0),
+// WebSocket (1) or — harness_c01x only — QUIC (2). mode 0/1: dial_address(../p2p/<dialed>), then the
+// transport reports ConnectionEstablished for the dialed peer / for another peer under the dial's
+// connection id; mode 2: an inbound connection (nothing pending). Observed: does next() hand out
+// ConnectionEstablished (after transport.accept), or is the connection refused (transport.reject; in
+// a debug build the manager stops at debug_assert!(false) first — both are "refused").
+fn run_kind9(rt: &tokio::runtime::Runtime, p: &[u64]) -> Option<(Vec<u64>, Vec<u64>)> {
+    use litep2p::transport::verif::{SupportedTransport, TransportManagerBuilder, VerifCall, VerifManagerEvent};
+    let max_transport = if cfg!(feature = "extra") { 2 } else { 1 };
+    if p.len() != 3 || p[1] > max_transport || p[2] > 2 {
+        return None;
+    }
+    let (seed, transport, mode) = (p[0], p[1], p[2]);
+    let mut rng = Rng::new(seed ^ 0xC01_0009);
+    let id_of = |k: &ed25519::Keypair| PeerId::from_public_key(&litep2p::crypto::PublicKey::Ed25519(k.public()));
+    let dialed = id_of(&keypair_from(&mut rng));
+    let other = id_of(&keypair_from(&mut rng));
+    let reported = if mode == 1 { other } else { dialed };
+    let base = match transport {
+        0 => "/ip4/10.1.2.3/tcp/7001",
+        1 => "/ip4/10.1.2.3/tcp/7001/ws",
+        _ => "/ip4/10.1.2.3/udp/7001/quic-v1",
+    };
+    let addr: multiaddr::Multiaddr =
+        format!("{base}/p2p/{}", multiaddr::PeerId::from_bytes(&dialed.to_bytes()).ok()?).parse().ok()?;
+    let name = match transport {
+        0 => SupportedTransport::Tcp,
+        1 => SupportedTransport::WebSocket,
+        #[cfg(feature = "extra")]
+        _ => SupportedTransport::Quic,
+        #[cfg(not(feature = "extra"))]
+        _ => return None,
+    };
+    let guard = rt.enter();
+    let mut manager = TransportManagerBuilder::new().build();
+    let script = manager.verif_register_scripted_as(name);
+    let cid = if mode == 2 {
+        manager.verif_alloc_connection_id()
+    } else {
+        rt.block_on(manager.dial_address(addr.clone())).ok()?;
+        let _ = manager.verif_drain();
+        let calls = script.take_calls();
+        let cid = calls.iter().find_map(|c| if let VerifCall::Dial(c) = c { Some(*c) } else { None })?;
+        if manager.verif_pending_connections() != vec![(cid, dialed)] {
+            return None;
+        }
+        cid
+    };
+    script.inject_connection_established(reported, cid, addr, mode == 2);
+    let res = catch_unwind(AssertUnwindSafe(|| {
+        let mut evs = manager.verif_drain();
+        script.resolve_accept(cid, true);
+        evs.extend(manager.verif_drain());
+        evs
+    }));
+    drop(guard);
+    let calls = script.take_calls();
+    let r: Result<PeerId, u64> = match res {
+        Err(_) => Err(8),
+        Ok(evs) => {
+            let est = evs.iter().find_map(|e| match e {
+                VerifManagerEvent::ConnectionEstablished(peer, c, _) if *c == cid => Some(*peer),
+                _ => None,
+            });
+            match est {
+                Some(peer) if calls.contains(&VerifCall::Accept(cid)) => Ok(peer),
+                Some(_) => Err(10),
+                None if calls.contains(&VerifCall::Reject(cid)) => Err(8),
+                None => Err(10),
+            }
+        }
+    };
+    std::mem::forget(manager);
+    let mut case = vec![9, 3];
+    case.extend_from_slice(p);
+    if mode == 2 {
+        case.push(0);
+    } else {
+        case.push(1);
+        el(&mut case, &dialed.to_bytes());
+    }
+    el(&mut case, &reported.to_bytes());
+    let mut trace = vec![9];
+    put_result(&mut trace, &r);
+    Some((case, trace))
+}
+
 // ------------------------------------------------------------------ kinds 7, 8: other callers
 // Compiled only into harness_c01x (cargo features quic + webrtc of litep2p), run by
 // tools/c01_extra_streams.sh.
@@ -1481,7 +1593,7 @@ mod extra {
     use super::*;
     use litep2p::{
         crypto::{
-            verif_tls::{verif_check_client_cert, verif_check_server_cert, verif_generate_with, VERIF_P2P_SIGNING_PREFIX},
+            verif_tls::{verif_check_client_cert, verif_check_server_cert, verif_generate_with_extensions, VERIF_P2P_SIGNING_PREFIX},
             verif_webrtc_noise::NoiseContext,
         },
         transport::webrtc::verif::verif_noise_prologue,
@@ -1494,6 +1606,8 @@ mod extra {
             13
         } else if e.contains("ExtensionValueInvalid") {
             14
+        } else if e.contains("UnsupportedCriticalExtension") {
+            15
         } else if e.contains("UnknownIssuer") {
             5
         } else {
@@ -1501,11 +1615,25 @@ mod extra {
         }
     }
 
+    /// One extension of a crafted certificate.
+    #[derive(Clone)]
+    enum X {
+        /// another OID, `critical` or not
+        Other(bool),
+        /// the libp2p OID with a content that is not a SignedKey
+        Raw(Vec<u8>),
+        /// the libp2p OID: SignedKey { key blob, signature }, marked critical or not
+        P2p(Vec<u8>, Vec<u8>, bool),
+    }
+
+    const OTHER_OIDS: [&[u64]; 3] = [&[1, 3, 6, 1, 4, 1, 53594, 1, 2], &[1, 2, 3, 4], &[1, 3, 6, 1, 4, 1, 53594, 2, 1]];
+
     /// kind 7: `7 3 seed forgery variant`. A certificate is generated by litep2p's own code path
-    /// (rcgen, fresh P-256 certificate key) with a libp2p extension chosen here, and given to the
-    /// real verifier as a server certificate (with an expected peer) and as a client certificate.
+    /// (rcgen, fresh P-256 certificate key) with the extensions chosen here, in this order, and
+    /// given to the real verifier as a server certificate (with an expected peer) and as a client
+    /// certificate.
     pub fn run_kind7(p: &[u64]) -> Option<(Vec<u64>, Vec<u64>)> {
-        if p.len() != 3 || p[1] > 12 {
+        if p.len() != 3 || p[1] > 17 {
             return None;
         }
         let (seed, fk, variant) = (p[0], p[1], p[2]);
@@ -1515,38 +1643,33 @@ mod extra {
         let pk_a = ka.public().to_bytes().to_vec();
         let prefix = VERIF_P2P_SIGNING_PREFIX.to_vec();
         // a SubjectPublicKeyInfo of ANOTHER certificate key (for "signature made for another key")
-        let (_, other_spki) = verif_generate_with(|_| Vec::new()).ok()?;
-        let mut ext_desc: Vec<u64> = Vec::new();
+        let (_, other_spki) = verif_generate_with_extensions(|_| Vec::new()).ok()?;
         let mut keys: Vec<Vec<u8>> = vec![pk_a.clone(), kb.public().to_bytes().to_vec()];
         let mut sigs: Vec<Vec<u8>> = Vec::new();
         let mut inter = 0usize;
+        let mut exts: Vec<X> = Vec::new();
         let mut r2 = rng.fork();
-        let (der, spki) = verif_generate_with(|spki| {
+        let mut r3 = rng.fork();
+        let (der, spki) = verif_generate_with_extensions(|spki| {
             let good_msg = [&prefix[..], spki].concat();
             let good_sig = ka.sign(&good_msg);
             let good_blob = key_blob(1, &pk_a);
             sigs.push(good_sig.clone());
-            let one = |k: Vec<u8>, s: Vec<u8>, d: &mut Vec<u64>| {
-                d.push(1);
-                el(d, &k);
-                el(d, &s);
-                vec![(k, s, true, None)]
-            };
-            match fk {
-                0 => one(good_blob, good_sig, &mut ext_desc),
-                1 => {
-                    ext_desc.push(0);
-                    Vec::new()
-                }
+            let good = X::P2p(good_blob.clone(), good_sig.clone(), true);
+            let bad_key = X::P2p(key_blob(2, &pk_a), good_sig.clone(), true);
+            let malformed = X::Raw(vec![0x30, 0x03, 0x04, 0x01, 0x00]);
+            exts = match fk {
+                0 => vec![good],
+                1 => Vec::new(),
                 2 => {
                     let s = kb.sign(&good_msg);
                     sigs.push(s.clone());
-                    one(good_blob, s, &mut ext_desc)
+                    vec![X::P2p(good_blob, s, true)]
                 }
                 3 => {
                     let s = ka.sign(&[&prefix[..], &other_spki[..]].concat());
                     sigs.push(s.clone());
-                    one(good_blob, s, &mut ext_desc)
+                    vec![X::P2p(good_blob, s, true)]
                 }
                 4 => {
                     let msg: Vec<u8> = match variant % 4 {
@@ -1557,7 +1680,7 @@ mod extra {
                     };
                     let s = ka.sign(&msg);
                     sigs.push(s.clone());
-                    one(good_blob, s, &mut ext_desc)
+                    vec![X::P2p(good_blob, s, true)]
                 }
                 5 => {
                     // non-canonical encodings of the key: the id must still be the key's
@@ -1567,34 +1690,30 @@ mod extra {
                         2 => [varint_pad(8, 1), varint_pad(1, 2), varint_pad(18, 1), varint_pad(32, 3), pk_a.clone()].concat(),
                         _ => key_blob((1 << 32) + 1, &pk_a),
                     };
-                    one(blob, good_sig, &mut ext_desc)
+                    vec![X::P2p(blob, good_sig, true)]
                 }
                 6 => {
                     let tys = [0u64, 2, 3, 4, 1 << 32];
-                    one(key_blob(tys[(variant % 5) as usize], &pk_a), good_sig, &mut ext_desc)
+                    vec![X::P2p(key_blob(tys[(variant % 5) as usize], &pk_a), good_sig, true)]
                 }
                 7 => {
                     let n = [0usize, 31, 33, 64][(variant % 4) as usize];
                     let mut d = pk_a.clone();
                     d.resize(n, 9);
-                    one(key_blob(1, &d), good_sig, &mut ext_desc)
+                    vec![X::P2p(key_blob(1, &d), good_sig, true)]
                 }
                 8 => {
-                    ext_desc.push(2);
                     let raw = match variant % 3 {
                         0 => vec![0x30, 0x03, 0x04, 0x01, 0x00],
                         1 => rand_bytes(&mut r2, 20),
                         _ => Vec::new(),
                     };
-                    vec![(Vec::new(), Vec::new(), true, Some(raw))]
+                    vec![X::Raw(raw)]
                 }
-                9 => {
-                    ext_desc.push(3);
-                    vec![(good_blob.clone(), good_sig.clone(), true, None), (good_blob, good_sig, false, None)]
-                }
+                9 => vec![good.clone(), X::P2p(good_blob, good_sig, false)],
                 10 => {
                     inter = 1 + (variant % 2) as usize;
-                    one(good_blob, good_sig, &mut ext_desc)
+                    vec![good]
                 }
                 11 => {
                     let k = unhex(SMALL_ORDER[(variant % 8) as usize]);
@@ -1602,16 +1721,75 @@ mod extra {
                     s.extend([0u8; 32]);
                     keys.push(k.clone());
                     sigs.push(s.clone());
-                    one(key_blob(1, &k), s, &mut ext_desc)
+                    vec![X::P2p(key_blob(1, &k), s, true)]
                 }
-                _ => {
+                12 => {
                     let mut s = good_sig.clone();
                     let i = r2.below(64) as usize;
                     s[i] ^= 1 << r2.below(8);
                     sigs.push(s.clone());
-                    one(good_blob, s, &mut ext_desc)
+                    vec![X::P2p(good_blob, s, true)]
                 }
-            }
+                // extensions the verifier must skip, around a good libp2p extension (critical or not)
+                13 => {
+                    let g = X::P2p(good_blob, good_sig, variant % 2 == 0);
+                    match (variant / 2) % 4 {
+                        0 => vec![X::Other(false), g],
+                        1 => vec![g, X::Other(false)],
+                        2 => vec![X::Other(false), X::Other(false), g, X::Other(false)],
+                        _ => vec![X::Other(false), g, X::Other(false), X::Other(false)],
+                    }
+                }
+                // a critical extension the verifier does not understand
+                14 => match variant % 5 {
+                    0 => vec![X::Other(true), good],
+                    1 => vec![good, X::Other(true)],
+                    2 => vec![X::Other(false), good, X::Other(false), X::Other(true)],
+                    3 => vec![X::Other(true)],
+                    _ => vec![X::Other(true), X::Other(true), good],
+                },
+                // two extensions with the libp2p OID: which error wins depends on the order
+                15 => match variant % 6 {
+                    0 => vec![bad_key, good],
+                    1 => vec![malformed, good],
+                    2 => vec![good, malformed],
+                    3 => vec![good, bad_key],
+                    4 => vec![good.clone(), X::Other(false), good],
+                    _ => vec![malformed.clone(), malformed],
+                },
+                // the first offending extension decides
+                16 => match variant % 6 {
+                    0 => vec![X::Other(true), malformed],
+                    1 => vec![malformed, X::Other(true)],
+                    2 => vec![bad_key, X::Other(true)],
+                    3 => vec![X::Other(true), bad_key],
+                    4 => vec![good.clone(), good, X::Other(true)],
+                    _ => vec![good, X::Other(true), X::Raw(Vec::new())],
+                },
+                // random lists
+                _ => {
+                    let n = r2.below(5);
+                    (0..n)
+                        .map(|_| match r2.below(8) {
+                            0 => X::Other(true),
+                            1 | 2 | 3 => X::Other(false),
+                            4 => malformed.clone(),
+                            5 => bad_key.clone(),
+                            _ => good.clone(),
+                        })
+                        .collect()
+                }
+            };
+            exts.iter()
+                .map(|x| match x {
+                    X::Other(critical) => {
+                        let oid = OTHER_OIDS[r3.below(3) as usize].to_vec();
+                        (Some(oid), None, rand_bytes(&mut r3, 1 + (variant % 7) as usize), *critical)
+                    }
+                    X::Raw(raw) => (None, None, raw.clone(), true),
+                    X::P2p(k, s, critical) => (None, Some((k.clone(), s.clone())), Vec::new(), *critical),
+                })
+                .collect()
         })
         .ok()?;
         let expected = match variant % 3 {
@@ -1628,7 +1806,23 @@ mod extra {
         // case
         let mut case = vec![7, 3];
         case.extend_from_slice(p);
-        case.extend(ext_desc.iter().copied());
+        case.push(exts.len() as u64);
+        for x in exts.iter() {
+            match x {
+                X::Other(critical) => case.push(*critical as u64),
+                X::Raw(_) => case.push(2),
+                X::P2p(k, s, _) => {
+                    case.push(3);
+                    el(&mut case, k);
+                    el(&mut case, s);
+                    // oracle tables over the extension's key data and signature
+                    if let Some((_, data)) = verif_decode_key_message(k) {
+                        keys.push(data);
+                    }
+                    sigs.push(s.clone());
+                }
+            }
+        }
         el(&mut case, &spki);
         case.push(inter as u64);
         match expected {
@@ -1636,14 +1830,6 @@ mod extra {
             Some(id) => {
                 case.push(1);
                 el(&mut case, &id.to_bytes());
-            }
-        }
-        // oracle tables over the extension's key data and signature
-        if ext_desc.first() == Some(&1) {
-            let n = ext_desc[1] as usize;
-            let blob: Vec<u8> = ext_desc[2..2 + n].iter().map(|x| *x as u8).collect();
-            if let Some((_, data)) = verif_decode_key_message(&blob) {
-                keys.push(data);
             }
         }
         keys.sort();
@@ -1678,10 +1864,10 @@ mod extra {
     /// two fingerprints; the remote is a snow responder whose prologue is computed from ITS view
     /// of the fingerprints (fpmode 0: the same pair; others: a differing pair).
     pub fn run_kind8(rt: &tokio::runtime::Runtime, p: &[u64]) -> Option<(Vec<u64>, Vec<u64>)> {
-        if p.len() != 4 || p[1] == 0 || p[1] >= NKINDS || p[3] > 5 {
+        if p.len() != 5 || p[1] == 0 || p[1] >= NKINDS || p[3] > 7 || p[4] > 6 {
             return None;
         }
-        let (seed, fkind, variant, fpmode) = (p[0], p[1], p[2], p[3]);
+        let (seed, fkind, variant, fpmode, lenmode) = (p[0], p[1], p[2], p[3], p[4]);
         let mut rng = Rng::new(seed ^ 0xC01_0008);
         let victim = keypair_from(&mut rng);
         let ka = keypair_from(&mut rng);
@@ -1697,10 +1883,15 @@ mod extra {
             2 => their_remote[rng.below(32) as usize] ^= 1 << rng.below(8),
             3 => std::mem::swap(&mut their_local, &mut their_remote),
             4 => their_remote = rand_bytes(&mut rng, 32),
-            _ => their_local.truncate(31),
+            5 => their_local.truncate(31),
+            _ => {}
         }
         // the remote (client) computes "libp2p-webrtc-noise:" ++ client fp ++ server fp
-        let pro_r = [b"libp2p-webrtc-noise:".as_slice(), &their_local, &their_remote].concat();
+        let pro_r = match fpmode {
+            6 => Vec::new(),                          // a remote that uses no prologue at all
+            7 => b"libp2p-webrtc-noise:".to_vec(),    // ... or only the prefix
+            _ => [b"libp2p-webrtc-noise:".as_slice(), &their_local, &their_remote].concat(),
+        };
         let replay = if fkind == 21 { honest_pair(rt, &mut rng, variant % 2, 0).0 } else { Vec::new() };
         let builder = snow_builder();
         let kp = builder.generate_keypair().ok()?;
@@ -1716,12 +1907,29 @@ mod extra {
         let mut out = vec![0u8; 70_000];
         responder.read_message(&m1[2..], &mut buf).ok()?;
         let n = responder.write_message(&payload, &mut out).ok()?;
-        let reply = framed(&out[..n]);
+        // get_remote_peer_id takes the two-byte prefix only as the size of its output buffer and hands
+        // ALL the bytes behind it to snow: a prefix that does not match, bytes behind the message
+        let (prefix, extra, short): (usize, usize, bool) = match lenmode {
+            0 => (n, 0, false),
+            1 => (payload.len(), 0, false),                     // smaller than the message, enough for the payload
+            2 if !payload.is_empty() => (payload.len() - 1, 0, false), // one byte too small for the payload
+            3 => (65535, 0, false),
+            4 => (n, 1, false),                                 // a byte appended behind the message
+            5 => (n, 0, true),                                  // the reply cut to a single byte
+            6 => (0, 0, false),
+            _ => (n, 0, false),
+        };
+        let mut reply = vec![(prefix >> 8) as u8, (prefix & 0xff) as u8];
+        reply.extend_from_slice(&out[..n]);
+        reply.extend(std::iter::repeat(0x5a).take(extra));
+        if short {
+            reply.truncate(1);
+        }
         let res = ctx.get_remote_peer_id(&reply).map_err(|e| class(&e));
         let mut trace = vec![8];
         put_result(&mut trace, &res);
         trace.push(0);
-        let mut case = vec![8, 4];
+        let mut case = vec![8, 5];
         case.extend_from_slice(p);
         // finish_case appends payload, static key, tables; the prologues go in between
         let (c2, t2) = finish_case(Vec::new(), trace, &payload, &kp.public, None, ks, ss, false);
@@ -1731,30 +1939,45 @@ mod extra {
         case.extend_from_slice(&c2[..l1 + l2]);
         el(&mut case, &pro_i);
         el(&mut case, &pro_r);
+        case.extend([short as u64, prefix as u64, extra as u64]);
         case.extend_from_slice(&c2[l1 + l2..]);
         Some((case, t2))
     }
 
     pub fn generate(rt: &tokio::runtime::Runtime, rng: &mut Rng, n: u64, run: &mut dyn FnMut(&[u64])) {
         let _ = rt;
-        for fk in 0..=12u64 {
+        for fk in 0..=17u64 {
             for v in 0..12u64 {
                 run(&[7, 3, 5000 + fk * 16 + v, fk, v]);
             }
         }
+        // two complete nodes over QUIC (right / wrong peer id dialed); the manager behind a scripted QUIC transport
+        for m in 1..=2u64 {
+            run(&[6, 3, 6900 + m, 2, m]);
+        }
+        for m in 0..3u64 {
+            run(&[9, 3, 6910 + m, 2, m]);
+        }
         for fk in 1..NKINDS {
-            for fp in 0..6u64 {
-                run(&[8, 4, 6000 + fk * 8 + fp, fk, fp + fk, fp]);
+            for fp in 0..8u64 {
+                run(&[8, 5, 6000 + fk * 8 + fp, fk, fp + fk, fp, 0]);
             }
-            run(&[8, 4, 6500 + fk, fk, fk, 0]);
+            run(&[8, 5, 6500 + fk, fk, fk, 0, 0]);
+            for lm in 1..7u64 {
+                run(&[8, 5, 6600 + fk * 8 + lm, if lm % 2 == 0 { fk } else { 1 }, fk, 0, lm]);
+            }
         }
         for i in 0..n {
             let seed = rng.next() >> 16;
-            if i % 2 == 0 {
-                run(&[7, 3, seed, rng.below(13), rng.below(1 << 12)]);
+            if i % 100 == 99 {
+                run(&[6, 3, seed, 2, rng.range(1, 2)]);
+            } else if i % 50 == 25 {
+                run(&[9, 3, seed, 2, rng.below(3)]);
+            } else if i % 2 == 0 {
+                run(&[7, 3, seed, if rng.chance(30) { 17 } else { rng.below(18) }, rng.below(1 << 12)]);
             } else {
                 let fk = if rng.chance(40) { 1 } else { 1 + rng.below(NKINDS - 1) };
-                run(&[8, 4, seed, fk, rng.below(1 << 12), if rng.chance(50) { 0 } else { rng.below(6) }]);
+                run(&[8, 5, seed, fk, rng.below(1 << 12), if rng.chance(50) { 0 } else { rng.below(8) }, if rng.chance(70) { 0 } else { rng.below(7) }]);
             }
         }
     }
@@ -1771,6 +1994,7 @@ fn run_case(rt: &tokio::runtime::Runtime, c: &[u64]) -> Option<(Vec<u64>, Vec<u6
         2 => run_kind2(rt, p),
         4 => run_kind4(rt, p),
         6 => run_kind6(rt, p),
+        9 => run_kind9(rt, p),
         #[cfg(feature = "extra")]
         7 => extra::run_kind7(p),
         #[cfg(feature = "extra")]
@@ -1816,6 +2040,8 @@ fn gen_case(rng: &mut Rng, i: u64, thorough: bool) -> Vec<u64> {
     let roll = rng.below(100);
     if roll < 2 && (thorough || i % 8 == 0) {
         vec![6, 3, seed, rng.below(2), rng.range(1, 2)]
+    } else if roll < 3 {
+        vec![9, 3, seed, rng.below(2), rng.below(3)]
     } else if roll < 12 {
         // honest sessions under random fragmentation, half of them with early data
         let frag = rng.pick(&[0u64, 1, 2, 3, 7, 16, 31, 33, 100, 201, 1000]);
@@ -1920,6 +2146,12 @@ pub fn main(args: &Args) {
     for t in 0..2u64 {
         for m in 1..=2u64 {
             run(&[6, 3, 8300 + t * 2 + m, t, m], &mut out);
+        }
+    }
+    // the manager's own comparison behind a scripted transport (TCP, WebSocket)
+    for t in 0..2u64 {
+        for m in 0..3u64 {
+            run(&[9, 3, 8350 + t * 4 + m, t, m], &mut out);
         }
     }
     // early data: the dialer's application writes right behind message 3
